@@ -531,7 +531,7 @@ def run(rep):
         "random schedules are unbounded in preemptions",
         "TLC 1.8 and CPython 3.12 sys.monitoring are trusted"]
     bound = 2 if quick else 3
-    budget = 600 if quick else 5000          # DFS schedules per configuration
+    budget = 600 if quick else 2500          # DFS schedules per configuration
     cfgs = configurations(quick, rep.seed)
     recs = []
     trunc = 0
@@ -557,7 +557,7 @@ def run(rep):
         rep.extra["preemption_points"] = points
         for fb in roots[0]["fallback"]:
             rep.drift.append(f"preemption points not located by pattern; dense fallback used ({fb})")
-        nrand = 24 if quick else 600
+        nrand = 24 if quick else 300
         tasks = []
         for ci, (c, root) in enumerate(zip(cfgs, roots)):
             tasks += _dfs_jobs(ci, c, root["children"], bound, budget, False, nrand, rep.seed * 100003 + ci,
@@ -604,7 +604,7 @@ def run(rep):
             rep.extra["preemption_points_dense"] = droots[0]["points"]
             dtasks = []
             for (ci, c), root in zip(dcfgs, droots):
-                dtasks += _dfs_jobs(ci, c, root["children"], 2, 2000, True, 150, rep.seed * 7 + ci)
+                dtasks += _dfs_jobs(ci, c, root["children"], 2, 1000, True, 80, rep.seed * 7 + ci)
             for out in pool.imap_unordered(_dfs_task, dtasks):
                 recs.extend(out["runs"])
                 trunc += out["truncated"]
